@@ -218,150 +218,172 @@ def run_case(tier, seed, index, spec=None):
     modes = ['plain', 'plain', 'plain', 'same-nt-names', 'name-clash', 'terminal-named-like-pair', 'terminal-conflict', 'plain', 'name-clash-3', 'name-clash-existing', 'terminal-vs-nonterminal-same-name', 'terminal-conflict-behind-nt-collision']
     mode = modes[index % len(modes)]
     g1, g2, meta = gen_pair(fggs, rng, mode)
-    snap1, snap2 = str(g1), str(g2)
-    record = dict(pairs=None, rules={})
 
-    def V(sig, msg):
-        viols.append(C.viol(sig, msg, meta=meta, g1=snap1[:3000], g2=snap2[:3000]))
+    def judge(g1, g2):
+        snap1, snap2 = str(g1), str(g2)
+        record = dict(pairs=None, rules={})
 
-    with Hooks() as h:
-        def on_pairs(r, a, k):
-            record['pairs'] = r
-        h.spy(CJ, 'nonterminal_pairs', on_return=on_pairs, key='nonterminal_pairs')
+        def V(sig, msg):
+            viols.append(C.viol(sig, msg, meta=meta, g1=snap1[:3000], g2=snap2[:3000]))
 
-        def on_rule(r, a, k):
-            record['rules'][id(r)] = (a[0], a[1], r)
-        h.spy(CJ, 'conjoin_rules', on_return=on_rule, key='conjoin_rules')
-        out = C.call(fggs.conjoin_hrgs, g1, g2)
-        hooks = dict(h.count)
-    obs['conjoin_calls'] += 1
-    feats = [mode] + sorted({'variant-' + v.split('x', 1)[1] for v in meta['variants']})
-    if mode in ('terminal-conflict', 'terminal-conflict-behind-nt-collision'):
-        obs['terminal_conflicts_expected'] += 1
-        if out['ok']:
-            V('terminal-conflict-accepted', 'conjoin_hrgs accepted two grammars with different terminal labels of the same name')
-        elif out['exc_type'] != 'ValueError':
-            V(f"terminal-conflict-other-exception:{out['exc_type']}", out['exc'])
-        return dict(cls=mode, features=feats, verdict='violated' if viols else 'held', violations=viols, obs=obs, hooks=hooks, nontrivial=False, key=C.hkey([snap1, snap2]))
-    if not out['ok']:
-        V(f"exception:conjoin_hrgs:{out['exc_type']}:{out.get('where', '')}", f'conjoin_hrgs raised {out["exc"]}')
-        return dict(cls=mode, features=feats, verdict='violated', violations=viols, obs=obs, hooks=hooks, nontrivial=False, key=C.hkey([snap1, snap2]))
-    g = out['value']
-    if str(g1) != snap1 or str(g2) != snap2:
-        V('input-modified', 'conjoin_hrgs modified an input grammar')
-    ntm = record['pairs']
-    if ntm is None:
-        return dict(cls=mode, features=feats, verdict='declined', violations=[], obs=obs, hooks=hooks, nontrivial=False, key=C.hkey([snap1, snap2]))
-    # (4) paired names
-    names = [l.name for l in ntm.values()]
-    existing = {l.name for l in g1.edge_labels()} | {l.name for l in g2.edge_labels()}
-    if len(set(names)) != len(names):
-        V('paired-names-not-unique', f'two nonterminal pairs share a name: {sorted(names)}')
-    clash = set(names) & existing
-    if clash:
-        V('paired-name-collides-with-existing-label', f'{sorted(clash)}')
-    want_pairs = {(a.name, b.name) for a in g1.nonterminals() for b in g2.nonterminals()}
-    if {(a.name, b.name) for a, b in ntm} != want_pairs:
-        V('paired-names-incomplete', 'nonterminal_pairs does not cover all pairs')
-    for (a, b), l in ntm.items():
-        if l.is_terminal or tuple(l.type) != tuple(a.type):
-            V('paired-label-type', f'pair ({a.name},{b.name}) -> {l.name} has wrong kind/type')
-    # (3) start
-    if g.start != ntm.get((g1.start, g2.start)):
-        V('start', f'start is {g.start.name}')
-    # (2) exactly the conjoinable pairs
-    r1s, r2s = g1.all_rules(), g2.all_rules()
-    want = [(i, j) for i, a in enumerate(r1s) for j, b in enumerate(r2s) if my_conjoinable(a, b)]
-    obs['pairs_considered'] += len(r1s) * len(r2s)
-    got = {}
-    for R in g.all_rules():
-        rec = record['rules'].get(id(R))
-        if rec is None:
-            V('rule-of-unknown-origin', f'rule {R.lhs.name} of the result was not produced by conjoin_rules')
-            continue
-        i = next(k for k, x in enumerate(r1s) if x is rec[0])
-        j = next(k for k, x in enumerate(r2s) if x is rec[1])
-        got.setdefault((i, j), []).append(R)
-    if sorted(got) != sorted(want) or any(len(v) != 1 for v in got.values()):
-        missing = sorted(set(want) - set(got))
-        extra = sorted(set(got) - set(want))
-        V('rule-pairs:' + ('missing' if missing else 'extra' if extra else 'duplicated'), f'conjoinable pairs {want}; conjoined {sorted(got)}')
-    # (1) each conjoined rule carries what the statement says
-    for (i, j), Rs in got.items():
-        a, b, R = r1s[i], r2s[j], Rs[0]
-        obs['conjoined_rules_checked'] += 1
-        bad = []
-        if R.lhs != ntm.get((a.lhs, b.lhs)):
-            bad.append(f'lhs {R.lhs.name}')
-        if set(R.rhs.nodes()) != set(a.rhs.nodes()) or len(list(R.rhs.nodes())) != len(list(a.rhs.nodes())):
-            bad.append('nodes differ from the pair\'s')
-        if list(R.rhs.ext) != list(a.rhs.ext):
-            bad.append('external nodes differ')
-        nt_a = {e.id: e for e in a.rhs.edges() if e.label.is_nonterminal}
-        nt_b = {e.id: e for e in b.rhs.edges() if e.label.is_nonterminal}
-        nt_R = {e.id: e for e in R.rhs.edges() if e.label.is_nonterminal}
-        if set(nt_R) != set(nt_a) or len(nt_R) != len([e for e in R.rhs.edges() if e.label.is_nonterminal]):
-            bad.append('nonterminal edge ids differ')
-        else:
-            for eid, e in nt_R.items():
-                if nt_b.get(eid) is None or e.label != ntm.get((nt_a[eid].label, nt_b[eid].label)) or tuple(e.nodes) != tuple(nt_a[eid].nodes):
-                    bad.append(f'nonterminal edge {eid} mislabelled or re-attached')
-        t_want = sorted((str(e.id), e.label.name, tuple(n.id for n in e.nodes)) for r in (a, b) for e in r.rhs.edges() if e.label.is_terminal)
-        t_got = sorted((str(e.id), e.label.name, tuple(n.id for n in e.nodes)) for e in R.rhs.edges() if e.label.is_terminal)
-        if t_want != t_got:
-            bad.append('terminal edges are not the union of both rules\' terminal edges')
-        if bad:
-            V('conjoined-rule-content', f'pair ({i},{j}): ' + '; '.join(bad[:4]))
-    # (5) derivation bijection up to the depth bound
-    depth = 4 if tier == 'quick' else 6
-    if not viols:
-        idx1 = {id(r): i for i, r in enumerate(r1s)}
-        idx2 = {id(r): i for i, r in enumerate(r2s)}
-        key_of = {id(R): ij for ij, Rs in got.items() for R in Rs}
-        ab1 = abstract(g1, lambda r: idx1[id(r)])
-        ab2 = abstract(g2, lambda r: idx2[id(r)])
-        abr = abstract(g, lambda r: key_of[id(r)])
-        cnt = [0]
-        t1 = enumerate_trees(ab1, g1.start.name, depth, 3000, cnt)
-        t2 = enumerate_trees(ab2, g2.start.name, depth, 3000, cnt) if t1 is not None else None
-        tr = enumerate_trees(abr, g.start.name, depth, 3000, cnt) if t2 is not None else None
-        if tr is None:
-            obs['enumeration_capped'] += 1
-        else:
-            def pair(x, y):
-                """pair two trees if same shape and conjoinable rules everywhere; else None"""
-                (k1, c1), (k2, c2) = x, y
-                if (k1, k2) not in got:
-                    return None
-                if [e for e, _ in c1] != [e for e, _ in c2]:
-                    return None
-                kids = []
-                for (e, a_), (_, b_) in zip(c1, c2):
-                    p = pair(a_, b_)
-                    if p is None:
+        with Hooks() as h:
+            def on_pairs(r, a, k):
+                record['pairs'] = r
+            h.spy(CJ, 'nonterminal_pairs', on_return=on_pairs, key='nonterminal_pairs')
+
+            def on_rule(r, a, k):
+                record['rules'][id(r)] = (a[0], a[1], r)
+            h.spy(CJ, 'conjoin_rules', on_return=on_rule, key='conjoin_rules')
+            out = C.call(fggs.conjoin_hrgs, g1, g2)
+            hooks = dict(h.count)
+        obs['conjoin_calls'] += 1
+        feats = [mode] + sorted({'variant-' + v.split('x', 1)[1] for v in meta['variants']})
+        if mode in ('terminal-conflict', 'terminal-conflict-behind-nt-collision'):
+            obs['terminal_conflicts_expected'] += 1
+            if out['ok']:
+                V('terminal-conflict-accepted', 'conjoin_hrgs accepted two grammars with different terminal labels of the same name')
+            elif out['exc_type'] != 'ValueError':
+                V(f"terminal-conflict-other-exception:{out['exc_type']}", out['exc'])
+            return dict(cls=mode, features=feats, verdict='violated' if viols else 'held', violations=viols, obs=obs, hooks=hooks, nontrivial=False, key=C.hkey([snap1, snap2]))
+        if not out['ok']:
+            V(f"exception:conjoin_hrgs:{out['exc_type']}:{out.get('where', '')}", f'conjoin_hrgs raised {out["exc"]}')
+            return dict(cls=mode, features=feats, verdict='violated', violations=viols, obs=obs, hooks=hooks, nontrivial=False, key=C.hkey([snap1, snap2]))
+        g = out['value']
+        if str(g1) != snap1 or str(g2) != snap2:
+            V('input-modified', 'conjoin_hrgs modified an input grammar')
+        ntm = record['pairs']
+        if ntm is None:
+            return dict(cls=mode, features=feats, verdict='declined', violations=[], obs=obs, hooks=hooks, nontrivial=False, key=C.hkey([snap1, snap2]))
+        # (4) paired names
+        names = [l.name for l in ntm.values()]
+        existing = {l.name for l in g1.edge_labels()} | {l.name for l in g2.edge_labels()}
+        if len(set(names)) != len(names):
+            V('paired-names-not-unique', f'two nonterminal pairs share a name: {sorted(names)}')
+        clash = set(names) & existing
+        if clash:
+            V('paired-name-collides-with-existing-label', f'{sorted(clash)}')
+        want_pairs = {(a.name, b.name) for a in g1.nonterminals() for b in g2.nonterminals()}
+        if {(a.name, b.name) for a, b in ntm} != want_pairs:
+            V('paired-names-incomplete', 'nonterminal_pairs does not cover all pairs')
+        for (a, b), l in ntm.items():
+            if l.is_terminal or tuple(l.type) != tuple(a.type):
+                V('paired-label-type', f'pair ({a.name},{b.name}) -> {l.name} has wrong kind/type')
+        # (3) start
+        if g.start != ntm.get((g1.start, g2.start)):
+            V('start', f'start is {g.start.name}')
+        # (2) exactly the conjoinable pairs
+        r1s, r2s = g1.all_rules(), g2.all_rules()
+        want = [(i, j) for i, a in enumerate(r1s) for j, b in enumerate(r2s) if my_conjoinable(a, b)]
+        obs['pairs_considered'] += len(r1s) * len(r2s)
+        got = {}
+        for R in g.all_rules():
+            rec = record['rules'].get(id(R))
+            if rec is None:
+                V('rule-of-unknown-origin', f'rule {R.lhs.name} of the result was not produced by conjoin_rules')
+                continue
+            i = next(k for k, x in enumerate(r1s) if x is rec[0])
+            j = next(k for k, x in enumerate(r2s) if x is rec[1])
+            got.setdefault((i, j), []).append(R)
+        if sorted(got) != sorted(want) or any(len(v) != 1 for v in got.values()):
+            missing = sorted(set(want) - set(got))
+            extra = sorted(set(got) - set(want))
+            V('rule-pairs:' + ('missing' if missing else 'extra' if extra else 'duplicated'), f'conjoinable pairs {want}; conjoined {sorted(got)}')
+        # (1) each conjoined rule carries what the statement says
+        for (i, j), Rs in got.items():
+            a, b, R = r1s[i], r2s[j], Rs[0]
+            obs['conjoined_rules_checked'] += 1
+            bad = []
+            if R.lhs != ntm.get((a.lhs, b.lhs)):
+                bad.append(f'lhs {R.lhs.name}')
+            if set(R.rhs.nodes()) != set(a.rhs.nodes()) or len(list(R.rhs.nodes())) != len(list(a.rhs.nodes())):
+                bad.append('nodes differ from the pair\'s')
+            if list(R.rhs.ext) != list(a.rhs.ext):
+                bad.append('external nodes differ')
+            nt_a = {e.id: e for e in a.rhs.edges() if e.label.is_nonterminal}
+            nt_b = {e.id: e for e in b.rhs.edges() if e.label.is_nonterminal}
+            nt_R = {e.id: e for e in R.rhs.edges() if e.label.is_nonterminal}
+            if set(nt_R) != set(nt_a) or len(nt_R) != len([e for e in R.rhs.edges() if e.label.is_nonterminal]):
+                bad.append('nonterminal edge ids differ')
+            else:
+                for eid, e in nt_R.items():
+                    if nt_b.get(eid) is None or e.label != ntm.get((nt_a[eid].label, nt_b[eid].label)) or tuple(e.nodes) != tuple(nt_a[eid].nodes):
+                        bad.append(f'nonterminal edge {eid} mislabelled or re-attached')
+            t_want = sorted((str(e.id), e.label.name, tuple(n.id for n in e.nodes)) for r in (a, b) for e in r.rhs.edges() if e.label.is_terminal)
+            t_got = sorted((str(e.id), e.label.name, tuple(n.id for n in e.nodes)) for e in R.rhs.edges() if e.label.is_terminal)
+            if t_want != t_got:
+                bad.append('terminal edges are not the union of both rules\' terminal edges')
+            if bad:
+                V('conjoined-rule-content', f'pair ({i},{j}): ' + '; '.join(bad[:4]))
+        # (5) derivation bijection up to the depth bound
+        depth = 4 if tier == 'quick' else 6
+        if not viols:
+            idx1 = {id(r): i for i, r in enumerate(r1s)}
+            idx2 = {id(r): i for i, r in enumerate(r2s)}
+            key_of = {id(R): ij for ij, Rs in got.items() for R in Rs}
+            ab1 = abstract(g1, lambda r: idx1[id(r)])
+            ab2 = abstract(g2, lambda r: idx2[id(r)])
+            abr = abstract(g, lambda r: key_of[id(r)])
+            cnt = [0]
+            t1 = enumerate_trees(ab1, g1.start.name, depth, 3000, cnt)
+            t2 = enumerate_trees(ab2, g2.start.name, depth, 3000, cnt) if t1 is not None else None
+            tr = enumerate_trees(abr, g.start.name, depth, 3000, cnt) if t2 is not None else None
+            if tr is None:
+                obs['enumeration_capped'] += 1
+            else:
+                def pair(x, y):
+                    """pair two trees if same shape and conjoinable rules everywhere; else None"""
+                    (k1, c1), (k2, c2) = x, y
+                    if (k1, k2) not in got:
                         return None
-                    kids.append((e, p))
-                return ((k1, k2), tuple(kids))
-            want_trees = set()
-            for x in t1:
-                for y in t2:
-                    p = pair(x, y)
-                    if p is not None:
-                        want_trees.add(p)
-            got_trees = list(tr)
-            obs['derivations_compared'] += len(got_trees) + len(want_trees)
-            if len(set(got_trees)) != len(got_trees):
-                V('derivations:duplicates', 'two derivations of the result project to the same pair')
-            if set(got_trees) != want_trees:
-                V('derivations:' + ('missing' if want_trees - set(got_trees) else 'extra'),
-                  f'{len(want_trees)} paired derivations expected within depth {depth}, result grammar has {len(got_trees)}; '
-                  f'missing {len(want_trees - set(got_trees))}, extra {len(set(got_trees) - want_trees)}')
-            nontrivial = len(g.all_rules()) >= 2 and len(got_trees) >= 2
-            return dict(cls=mode, features=feats, verdict='violated' if viols else 'held', violations=viols, obs=obs, hooks=hooks, nontrivial=nontrivial,
-                        key=C.hkey([snap1, snap2]), sample=dict(mode=mode, g1_rules=len(r1s), g2_rules=len(r2s), conjoined_rules=len(g.all_rules()),
-                                                                derivations_within_depth=len(got_trees), nonterminals=[n1 for n1 in meta['n1']] + meta['n2']))
-    return dict(cls=mode, features=feats, verdict='violated' if viols else 'held', violations=viols, obs=obs, hooks=hooks, nontrivial=False, key=C.hkey([snap1, snap2]),
-                sample=dict(mode=mode))
+                    if [e for e, _ in c1] != [e for e, _ in c2]:
+                        return None
+                    kids = []
+                    for (e, a_), (_, b_) in zip(c1, c2):
+                        p = pair(a_, b_)
+                        if p is None:
+                            return None
+                        kids.append((e, p))
+                    return ((k1, k2), tuple(kids))
+                want_trees = set()
+                for x in t1:
+                    for y in t2:
+                        p = pair(x, y)
+                        if p is not None:
+                            want_trees.add(p)
+                got_trees = list(tr)
+                obs['derivations_compared'] += len(got_trees) + len(want_trees)
+                if len(set(got_trees)) != len(got_trees):
+                    V('derivations:duplicates', 'two derivations of the result project to the same pair')
+                if set(got_trees) != want_trees:
+                    V('derivations:' + ('missing' if want_trees - set(got_trees) else 'extra'),
+                      f'{len(want_trees)} paired derivations expected within depth {depth}, result grammar has {len(got_trees)}; '
+                      f'missing {len(want_trees - set(got_trees))}, extra {len(set(got_trees) - want_trees)}')
+                nontrivial = len(g.all_rules()) >= 2 and len(got_trees) >= 2
+                return dict(cls=mode, features=feats, verdict='violated' if viols else 'held', violations=viols, obs=obs, hooks=hooks, nontrivial=nontrivial,
+                            key=C.hkey([snap1, snap2]), sample=dict(mode=mode, g1_rules=len(r1s), g2_rules=len(r2s), conjoined_rules=len(g.all_rules()),
+                                                                    derivations_within_depth=len(got_trees), nonterminals=[n1 for n1 in meta['n1']] + meta['n2']))
+        return dict(cls=mode, features=feats, verdict='violated' if viols else 'held', violations=viols, obs=obs, hooks=hooks, nontrivial=False, key=C.hkey([snap1, snap2]),
+                    sample=dict(mode=mode))
+
+    res = judge(g1, g2)
+    if mode in ('plain', 'same-nt-names') and index % 3 != 1 and res['verdict'] == 'held':
+        # the first grammar is edited in place after it has been conjoined -- a nonterminal edge of one rule gets another
+        # label (same id, same attachment) -- and conjoined again: the result has to be that of the edited grammar
+        cands = [(r, e) for r in g1.all_rules() for e in r.rhs.edges() if e.label.is_nonterminal]
+        others = lambda e: [l for l in g1.nonterminals() if l != e.label and tuple(l.type) == tuple(e.label.type)]
+        cands = [(r, e) for r, e in cands if others(e)]
+        if cands:
+            r, e = rng.choice(cands)
+            newlab = rng.choice(others(e))
+            r.rhs.remove_edge(e)
+            r.rhs.add_edge(fggs.Edge(newlab, list(e.nodes), id=e.id))
+            meta['edited'] = f'edge {e.id} of a rule of {r.lhs.name}: {e.label.name} -> {newlab.name}'
+            res2 = judge(g1, g2)
+            res2['features'] = list(res2.get('features', [])) + ['conjoined-again-after-edit']
+            for v in res2.get('violations', []):
+                v['sig'] = v['sig'] + ':after-edit'
+            return res2
+    return res
 
 
 def finalize(tot, tier, seed):
@@ -374,7 +396,7 @@ def finalize(tot, tier, seed):
             inc.append(f'{k} never observed')
     if tot['obs'].get('enumeration_capped', 0) > 0.5 * tot['evaluated']:
         inc.append('derivation enumeration hit its cap in more than half of the cases')
-    for f in ('plain', 'same-nt-names', 'name-clash', 'name-clash-3', 'name-clash-existing', 'terminal-vs-nonterminal-same-name', 'terminal-named-like-pair', 'terminal-conflict', 'terminal-conflict-behind-nt-collision',
+    for f in ('conjoined-again-after-edit', 'plain', 'same-nt-names', 'name-clash', 'name-clash-3', 'name-clash-existing', 'terminal-vs-nonterminal-same-name', 'terminal-named-like-pair', 'terminal-conflict', 'terminal-conflict-behind-nt-collision',
               'variant-ext-other', 'variant-ext-order', 'variant-slot-other', 'variant-slot-order', 'variant-slot-extra'):
         if tot['features'].get(f, 0) == 0:
             inc.append(f'class {f} never generated')
